@@ -21,6 +21,15 @@
 #include <sys/syscall.h>
 #include <time.h>
 #include <unistd.h>
+#include <initializer_list>
+// coverage audit (scripts/coverage_audit.sh): forked executions end with _exit, so the profile of a
+// coverage-instrumented harness / library has to be written by hand; a no-op in normal builds
+extern "C" void pmc_cov_flush()
+{
+    if (!getenv("LLVM_PROFILE_FILE")) return;
+    for (const char* n : {"pmc_cov_write_lib", "pmc_cov_write_exe"})
+        if (auto f = (int (*)()) dlsym(RTLD_DEFAULT, n)) f();
+}
 
 typedef unsigned __int128 u128;
 
@@ -216,6 +225,7 @@ static void finish(int outcome)
         X->vclock_end = vclock_ns;
         __atomic_store_n(&X->done, 1, __ATOMIC_SEQ_CST);
     }
+    pmc_cov_flush();
     _exit(0);
 }
 static void describe_threads(char* out, size_t cap)
